@@ -48,3 +48,17 @@ Print Assumptions C02_trailers_with_terminal_result.
 Theorem C02_close_first_refuted : exists ls s, cf_run true cf_init ls = Some s /\ read_ok s = false.
 Proof. exact close_first_refuted. Qed.
 Print Assumptions C02_close_first_refuted.
+
+(* code shape, regenerated from the source on every run (see theories/SkelFinish.v) *)
+From Coq Require Import String.
+From GT Require Import SkelFinish.
+From GTgen Require Import Params.
+Local Open Scope string_scope.
+Theorem C02_client_finish_shape : skel_tunnelClientStream_finishStream =
+  ["call done.CompareAndSwap"; "defer call cancel"; "call ch.removeStream"; "defer call receiver.close"; "call metaMu.Lock"; "defer call metaMu.Unlock"; "set trailers"; "set gotHeaders"; "close gotHeadersSignal"; "close doneSignal"].
+Proof. exact tunnelClientStream_finishStream_shape. Qed.
+Print Assumptions C02_client_finish_shape.
+Theorem C02_accept_frame_shape : skel_tunnelClientStream_acceptServerFrame =
+  ["call finishStream"; "call metaMu.Lock"; "defer call metaMu.Unlock"; "set gotHeaders"; "set headers"; "close gotHeadersSignal"; "call finishStream"; "call sender.updateWindow"; "call finishStream"; "call receiver.accept"; "call finishStream"].
+Proof. exact tunnelClientStream_acceptServerFrame_shape. Qed.
+Print Assumptions C02_accept_frame_shape.
